@@ -457,6 +457,45 @@ class _C14Base(BytesMixin, ZListMixin, UnitsExecutor):
                 return [(st, zl(st, self, z3.Concat(ta, tb), ekind=ek))]
         return super().binop(st, op, a, b, node, inplace)
 
+    def e_List(self, n, st):
+        # `[*a, x, *b]` where a starred operand is a sequence-valued list of strings: the concatenation (same value as `a + [x] + b`)
+        if any(isinstance(e, ast.Starred) for e in n.elts):
+            acc = [(st, [])]
+            for e in n.elts:
+                nxt = []
+                for (s, terms) in acc:
+                    for (s2, v) in self.ev(e.value if isinstance(e, ast.Starred) else e, s):
+                        nxt.append((s2, terms + [(isinstance(e, ast.Starred), v)]))
+                acc = nxt
+            out = []
+            for (s, parts) in acc:
+                if not any(star and self.is_zlist(s, v) for (star, v) in parts):
+                    items = []
+                    for (star, v) in parts:
+                        if star:
+                            ci = self.concrete_items(s, v)
+                            if ci is None:
+                                self.unsupported(n, "starred of symbolic iterable")
+                            items += ci
+                        else:
+                            items.append(v)
+                    out.append((s, self.new_list(s, items)))
+                    continue
+                ts = []
+                for (star, v) in parts:
+                    if star:
+                        t = self.zterm(s, v)
+                        if t is None or t.sort() != SS or (self.is_zlist(s, v) and s.obj(v.ref).cls not in (None, "str")):
+                            self.unsupported(n, "starred of symbolic iterable")
+                        ts.append(t)
+                    elif isinstance(v, VStr):
+                        ts.append(z3.Unit(v.t))
+                    else:
+                        self.unsupported(n, "list display mixing a sequence-valued list with non-string elements")
+                out.append((s, zl(s, self, ts[0] if len(ts) == 1 else z3.Concat(*ts))))
+            return out
+        return super().e_List(n, st)
+
     def e_ListComp(self, n, st):
         # `[x for x in <sequence-valued list> if <pure tests on x>]`: some sub-sequence (fresh sequence-valued list)
         if len(n.generators) == 1 and isinstance(n.elt, ast.Name) and isinstance(n.generators[0].target, ast.Name) \
